@@ -117,6 +117,6 @@ occur in `h` need to be looked for). -/
 def checkKeys (h : List Op) (keys : List Bytes) : Bool :=
   keys.all (fun k => (birth h k).isSome) &&
   strictlyIncreasing (keys.filterMap (birth h)) &&
-  (h.filterMap opKey).all (fun k => !(birth h k).isSome || keys.contains k)
+  ((h.filterMap opKey).eraseDups).all (fun k => !(birth h k).isSome || keys.contains k)
 
 end Mila.Spec.TextMap
